@@ -102,7 +102,7 @@ def lex_text(text, cells):
 def models(tier):
     quals = [None, "any"]
     vers = [None] + [(op, v) for op in relspec.OPS for v in ("1.0", "2:1.0~rc1+b1-1")]
-    archs = [None, [(False, "amd64")], [(True, "amd64"), (True, "i386")], [(False, "linux-any"), (False, "any-i386"), (False, "hurd-i386")]]
+    archs = [None, [(False, "amd64")], [(True, "amd64"), (True, "i386")], [(False, "linux-any"), (True, "any-i386"), (False, "hurd-i386"), (False, "any-arm64")]]
     profs = [(), ([(False, "cross")],), ([(True, "nocheck")],), ([(False, "cross"), (True, "nodoc")],), ([(True, "a"), (True, "b"), (False, "c")], [(False, "stage1")]), ([(True, "x")], [(True, "y")], [(False, "z")])]
     out = []
     i = 0
